@@ -18,7 +18,7 @@
    below 2^53, where exact and float64 comparison coincide; see notes/C08.md. *)
 From Coq Require Import List ZArith Bool String Ascii.
 From GZ Require Import C08.Model C08.Spec C08.Proofs C08.ProofsB.
-From GZ Require Import C08.KModel C08.KSpec C08.KProofs C08.KProofsB C08.KProofsC.
+From GZ Require Import C08.KModel C08.KSpec C08.KProofs C08.KProofsB C08.KProofsC C08.Rounding.
 Import ListNotations.
 Open Scope Z_scope.
 Open Scope string_scope.
@@ -299,6 +299,34 @@ Theorem keyed_dependency_respected : forall kc fs ob v env' fs' ob' key o t,
   reach kc [] fs ob env' fs' ob' -> field_in key o t fs' -> dep_respected key o ob' = true.
 Proof. exact dependencyK_respected_lemma. Qed.
 Print Assumptions keyed_dependency_respected.
+
+(* "lies inside its declared range": bound and value are decimal texts, [in_range] compares them
+   exactly.  go-zero compares roundings (float64 of both).  For ANY rounding that is monotone and
+   applied to value and bounds alike this is the same judgement, except at a near tie (two different
+   numbers with one rounding); a value that is the bound (in any spelling) is never a near tie. *)
+
+Theorem rounded_range_agrees : forall rnd,
+  (forall a b, dec_leb a b = true -> dec_leb (rnd a) (rnd b) = true) ->
+  forall r d, no_near_tie rnd r d = true -> in_range (round_range rnd r) (rnd d) = in_range r d.
+Proof. exact rounded_range_agrees_lemma. Qed.
+Print Assumptions rounded_range_agrees.
+
+Theorem same_number_has_same_rounding : forall rnd,
+  (forall a b, dec_leb a b = true -> dec_leb (rnd a) (rnd b) = true) ->
+  forall d x, dec_eqb d x = true -> dec_eqb (rnd d) (rnd x) = true.
+Proof. exact same_number_same_rounding. Qed.
+Print Assumptions same_number_has_same_rounding.
+
+Theorem value_equal_to_bound_is_no_near_tie : forall rnd a b, dec_eqb a b = true -> near_tie rnd a b = false.
+Proof. exact equal_is_no_near_tie. Qed.
+Print Assumptions value_equal_to_bound_is_no_near_tie.
+
+(* the hypotheses are satisfiable: the identity is a monotone rounding without near ties *)
+Example ex_identity_rounding :
+  (forall a b, dec_leb a b = true -> dec_leb ((fun d => d) a) ((fun d => d) b) = true) /\
+  no_near_tie (fun d => d) (mkRange false (Some (mkDec 3 (-1))) (Some (mkDec 1 0)) true) (mkDec 30 (-2)) = true /\
+  in_range (mkRange false (Some (mkDec 3 (-1))) (Some (mkDec 1 0)) true) (mkDec 30 (-2)) = false.
+Proof. split; [intros a b H; exact H | vm_compute; split; reflexivity]. Qed.
 
 (* calls: one entry point = its passes in order (httpx.Parse: path, form, header, json body),
    then the request validator *)
